@@ -4158,9 +4158,7 @@ xpath_deref(struct lyxp_set **args, uint32_t UNUSED(arg_count), struct lyxp_set 
                 }
             } else if (sleaf->type->basetype == LY_TYPE_INST) {
                 if (ly_path_eval(leaf->value.target, set->tree, NULL, &node)) {
-                    LOGERR(set->ctx, LY_EINVAL, "Invalid instance-identifier \"%s\" value - required instance not found.",
-                            lyd_get_value(&leaf->node));
-                    ret = LY_EINVAL;
+                    /* no target instance, the result is an empty node set */
                     goto cleanup;
                 }
 
